@@ -6,6 +6,7 @@
 int q_ph, q_cnt, q_val;     /* ghost automaton */
 int g_first_nz;             /* the first octet's value is not 0 (known once its dot has been read) */
 int g_strspn_calls;
+int g_b0;                    /* the first byte of the input (start[0]; ']' for the empty input) */
 
 /* A5: strspn(start, "0.") is used for its truth value only ("is there anything but zeros and dots?");
    the model returns any index within the string, so both outcomes of that test are explored */
@@ -36,11 +37,13 @@ __CPROVER_ensures(__CPROVER_return_value == 0 || __CPROVER_return_value == 1)
 int is_ipv4(const char *start, const char *end)
 /* call sites: the closing bracket follows the address */
 __CPROVER_requires(RANGE_REQ(start, end, (size_t)0x7ffffff0) && start[g_len] == ']')
-__CPROVER_requires(q_ph == Q_START && q_cnt == 0 && q_val == 0 && g_first_nz == 0 && g_pos == 0 && g_cur == -1 && g_la == BYTE_AT(start) && g_strspn_calls == 0)
+__CPROVER_requires(q_ph == Q_START && q_cnt == 0 && q_val == 0 && g_first_nz == 0 && g_pos == 0 && g_cur == -1 && g_la == BYTE_AT(start) && g_strspn_calls == 0 && g_b0 == g_la)
 __CPROVER_assigns(q_ph, q_cnt, q_val, g_first_nz, g_pos, g_cur, g_la, g_strspn_calls)
 __CPROVER_ensures(__CPROVER_return_value == 0 || __CPROVER_return_value == 1)
 /* YES => four decimal octets 0..255 separated by single dots, nothing else */
 __CPROVER_ensures(__CPROVER_return_value != 0 ==> (g_pos == g_len ? Q_ACC(q_ph, q_cnt) : g_la == 0))
+/* (used by is_ipv6, which hands over the text from the start of the last hex group) */
+__CPROVER_ensures(__CPROVER_return_value != 0 ==> (g_len >= 1 && Q_IS_DIGIT(g_b0)))
 /* conversely: every such dotted quad whose first octet is not zero is accepted */
 __CPROVER_ensures((g_pos == g_len && Q_ACC(q_ph, q_cnt) && g_first_nz) ==> __CPROVER_return_value != 0)
 /* NO => the automaton rejects, or the first octet is zero (left open by the property) */
@@ -55,6 +58,7 @@ __CPROVER_ensures(__CPROVER_return_value == 0 ==> (q_ph == Q_DEAD || (g_pos == g
         && (g_first_nz == 0 || g_first_nz == 1) && g_strspn_calls >= 0 && (size_t)g_strspn_calls <= g_pos \
         && (q_ph != Q_DEAD ==> (byte_count == q_cnt && q_cnt <= 4 && in_byte == (q_ph == Q_DIG) && (q_ph == Q_DIG ==> byte_val == q_val) \
                                 && ((byte_count == 0) == (cp == start)))) \
+        && (cp > start ==> Q_IS_DIGIT(g_b0)) \
         && (q_ph == Q_DEAD ==> (byte_count > 4)) && (q_ph == Q_DIG ==> q_cnt >= 1) && ((cp == start) ==> (q_ph == Q_START && q_cnt == 0 && in_byte == 0)) \
         && ((cp > start && !in_byte) ==> (cp < end && cp[-1] == '.')) \
         && (g_first_nz == 1 ==> (byte_count >= 2 || (byte_count == 1 && !in_byte)))) \
